@@ -47,6 +47,8 @@ def control(props, tier):
 def run_variant(path, kind):
     h = header(path)
     props = ','.join(h.get('property', ['all']))
+    if kind == 'neutral' and os.environ.get('SELFTEST_PROPS'):
+        props = os.environ['SELFTEST_PROPS']  # a quick regression of a few properties over the whole neutral corpus
     tier = h.get('tier', ['quick'])[0]
     if kind == 'mutants':
         c = control(props, tier)
@@ -105,7 +107,7 @@ def main():
             line = '%s %s: %s' % ('PASS' if ok else 'FAIL', rel, msg)
             print(line, flush=True); lines.append(line)
             bad += (not ok)
-    if not sel:
+    if not sel and not os.environ.get('SELFTEST_KIND') and not os.environ.get('SELFTEST_PROPS'):
         with open(os.path.join(VERIF, 'selftest', 'RESULTS.md'), 'w') as f:
             f.write('# Selftest results (mutants must fire, neutral edits must stay silent)\n\n')
             for l in lines: f.write('- ' + l + '\n')
